@@ -589,17 +589,18 @@ class LinearFactor(ConjugateFactor):
         computed.
              :return: Returns the resulting dictionary to create GaussianMeasure.
         """
-        Lambda_new = measure.Lambda
+        R_new = max(measure.R, self.R)
+        Lambda_new = jnp.broadcast_to(measure.Lambda, (R_new, self.D, self.D))
         nu_new = measure.nu + self.nu
         ln_beta_new = measure.ln_beta + self.ln_beta
         new_density_dict = {"Lambda": Lambda_new, "nu": nu_new, "ln_beta": ln_beta_new}
         if update_full:
             if measure.Sigma is None:
-                Sigma_new, ln_det_Lambda_new = linalg.invert_matrix(measure.Lambda)
+                Sigma_new, ln_det_Lambda_new = linalg.invert_matrix(Lambda_new)
                 ln_det_Sigma_new = -ln_det_Lambda_new
             else:
-                Sigma_new = measure.Sigma
-                ln_det_Sigma_new = measure.ln_det_Sigma
+                Sigma_new = jnp.broadcast_to(measure.Sigma, (R_new, self.D, self.D))
+                ln_det_Sigma_new = jnp.broadcast_to(measure.ln_det_Sigma, (R_new,))
                 ln_det_Lambda_new = -ln_det_Sigma_new
             new_density_dict.update(
                 {
@@ -731,17 +732,18 @@ class ConstantFactor(ConjugateFactor):
         Returns:
             Returns the resulting dictionary to create GaussianMeasure.
         """
-        Lambda_new = measure.Lambda
-        nu_new = measure.nu
+        R_new = max(measure.R, self.R)
+        Lambda_new = jnp.broadcast_to(measure.Lambda, (R_new, self.D, self.D))
+        nu_new = jnp.broadcast_to(measure.nu, (R_new, self.D))
         ln_beta_new = measure.ln_beta + self.ln_beta
         new_density_dict = {"Lambda": Lambda_new, "nu": nu_new, "ln_beta": ln_beta_new}
         if update_full:
             if measure.Sigma is None:
-                Sigma_new, ln_det_Lambda_new = linalg.invert_matrix(measure.Lambda)
+                Sigma_new, ln_det_Lambda_new = linalg.invert_matrix(Lambda_new)
                 ln_det_Sigma_new = -ln_det_Lambda_new
             else:
-                Sigma_new = measure.Sigma
-                ln_det_Sigma_new = measure.ln_det_Sigma
+                Sigma_new = jnp.broadcast_to(measure.Sigma, (R_new, self.D, self.D))
+                ln_det_Sigma_new = jnp.broadcast_to(measure.ln_det_Sigma, (R_new,))
                 ln_det_Lambda_new = -ln_det_Sigma_new
             new_density_dict.update(
                 {
